@@ -52,6 +52,15 @@ var _ func(int, string) frt.Tuple2[int, string] = i_ret_pair
 var _ func(string) []string = i_ret_slice
 var _ func(bool, string, string) string = i_ret_pick
 var _ func(int) int = i_ret_use
+var _ func([]int) []int = i_inc_all
+var _ func([]frt.Tuple2[int, string]) []int = i_fsts[int, string]
+var _ func(int, string, bool) GRes[int] = i_const_fac[int, string, bool]
+var _ func(int) func(string, int) GRes[int] = i_use_fac
+var _ func() GRes[int] = i_none
+var _ func(int, string) string = i_tuple_pipe[int, string]
+var _ func([]int) []int = i_rec_map
+var _ func(func() int, frt.Tuple2[int, string]) frt.Tuple2[int, []string] = i_annot
+var _ func(string) [][]string = i_lits[string]
 
 func Harness_C02_generic_uses() {
 	n := verifInt("n")
